@@ -1813,23 +1813,35 @@ def _check_roundtrip_(op4, sc, case, inputs, binary):
         want = m["D"] if (binary or case["digits"] >= 16) else _rounded(m["D"], case["digits"])
         if not _same_bits(np.asarray(X), want):
             return ("dict-values", nm, "matrix %d" % k)
-    # named subset
-    if len(set(names)) > 1:
-        pick = names[-1]
-        try:
-            with warnings.catch_warnings():
-                warnings.simplefilter("ignore")
-                sn, sm, _, _ = op4.load(p, namelist=pick, into="list")
-        except Exception as e:  # noqa: BLE001
-            return ("namelist-raises", "%s: %s" % (type(e).__name__, e), "the matrices named %r" % pick)
-        idx = [i for i, n in enumerate(names) if n == pick]
-        if sn != [pick] * len(idx):
-            return ("namelist", sn, [pick] * len(idx))
-        for X, i in zip(sm, idx):
-            m = case["mats"][i]
-            want = m["D"] if (binary or case["digits"] >= 16) else _rounded(m["D"], case["digits"])
-            if not _same_bits(np.asarray(X), want):
-                return ("namelist-values", pick, "matrix %d" % i)
+    # named subsets = the full read filtered by name: every single name (a repeated one included), as a string and
+    # as a list, and a two-name list; list interface (every occurrence, file order) and dictionary (last one wins)
+    distinct = list(dict.fromkeys(names))
+    picks = [[n] for n in distinct] + ([[distinct[-1], distinct[0]]] if len(distinct) > 1 else [])
+    for pk in picks:
+        for arg in ([pk[0], list(pk)] if len(pk) == 1 else [list(pk)]):
+            try:
+                with warnings.catch_warnings():
+                    warnings.simplefilter("ignore")
+                    sn, sm, _, _ = op4.load(p, namelist=arg, into="list")
+                    sd = op4.read(p, namelist=arg)
+            except Exception as e:  # noqa: BLE001
+                return ("namelist-raises", "%s: %s" % (type(e).__name__, e), "the matrices named %r" % (arg,))
+            idx = [i for i, n in enumerate(names) if n in pk]
+            if sn != [names[i] for i in idx]:
+                return ("namelist", sn, [names[i] for i in idx])
+            for X, i in zip(sm, idx):
+                m = case["mats"][i]
+                want = m["D"] if (binary or case["digits"] >= 16) else _rounded(m["D"], case["digits"])
+                if not _same_bits(np.asarray(X), want):
+                    return ("namelist-values", arg, "matrix %d" % i)
+            if list(sd) != list(dict.fromkeys(names[i] for i in idx)):
+                return ("namelist-dict-names", list(sd), list(dict.fromkeys(names[i] for i in idx)))
+            for nm, X in sd.items():
+                k = max(i for i in idx if names[i] == nm)
+                m = case["mats"][k]
+                want = m["D"] if (binary or case["digits"] >= 16) else _rounded(m["D"], case["digits"])
+                if not _same_bits(np.asarray(X), want):
+                    return ("namelist-dict-values", nm, "matrix %d (the last of that name)" % k)
     return None
 
 
@@ -2090,10 +2102,84 @@ def _oracle_f49_quick(ctx, op4):
         ctx.skip("F49 quick guard: inner writer interface changed (%s)" % type(e).__name__)
 
 
+HUGE_FORM = "op4-huge-sparse-input-automatic-form"
+
+
+def _huge_sparse_cases(rng, count):
+    """square scipy.sparse matrices with more than 2**32 positions and a handful of entries: the automatic form (6 iff
+    value-symmetric) must be decided on (row, col) pairs, not on a linearised index that wraps.  Entries are placed so
+    that a non-mirror pair coincides modulo 2**32 in r*n + c (the textbook way a 32-bit linear index goes wrong)."""
+    out = []
+    for _ in range(count):
+        n = rng.choice([131072, 100000, 70001, 2 ** 17 + 3])
+        cplx = rng.random() < 0.3
+        val = complex(2.5, -1.0) if cplx else 2.5
+        for _try in range(200):
+            r, c = rng.randrange(n), rng.randrange(n)
+            L = r * n + c - 2 ** 32
+            if L < 0 or r <= c:
+                continue
+            c2, r2 = divmod(L, n)  # (r2, c2) has the transposed linear index L
+            if r2 < c2 and (r2, c2) != (c, r):
+                break
+        else:
+            continue
+        kind = rng.choice(["collide", "mirror", "collide+diag"])
+        if kind == "mirror":
+            trip = [(r, c, val), (c, r, val)]
+        else:
+            trip = [(r, c, val), (r2, c2, val)]
+            if kind == "collide+diag":
+                trip.append((7, 7, 1.0))
+        out.append({"n": n, "trip": trip, "cplx": cplx, "binary": rng.random() < 0.6,
+                    "fmt": rng.choice(["coo", "csr", "csc"]), "opt": rng.choice(["auto", "bigmat"])})
+    return out
+
+
+def _oracle_huge_sparse(ctx, op4, sc, case):
+    n, trip = case["n"], case["trip"]
+    ctx.count("oracle:huge-sparse-form")
+    rows = np.array([t[0] for t in trip])
+    cols = np.array([t[1] for t in trip])
+    vals = np.array([t[2] for t in trip], dtype=complex if case["cplx"] else float)
+    A = sp.coo_matrix((vals, (rows, cols)), shape=(n, n))
+    A = {"coo": lambda: A, "csr": A.tocsr, "csc": A.tocsc}[case["fmt"]]()
+    ent = {(t[0], t[1]): t[2] for t in trip}
+    sym = all(ent.get((c, r)) == v for (r, c), v in ent.items())
+    want = 6 if sym else 1
+    p = sc.path()
+    inp = {"kind": "huge-sparse", "case": {k: (v if k != "trip" else [[t[0], t[1], [complex(t[2]).real, complex(t[2]).imag]] for t in v])
+                                          for k, v in case.items()}}
+    try:
+        with warnings.catch_warnings():
+            warnings.simplefilter("ignore")
+            op4.write(p, ["a"], [A], binary=case["binary"], sparse=case["opt"])
+            forms = op4.dir(p, verbose=False)[2]
+            _, ms, fs, _ = op4.load(p, into="list", sparse=True)
+    except MemoryError:
+        ctx.skip("huge sparse form: MemoryError")
+        return
+    except Exception as e:  # noqa: BLE001
+        ctx.fail(HUGE_FORM + "-raises", "write / dir / sparse read of a %d x %d sparse matrix with %d entries raises" % (n, n, len(trip)),
+                 inp, "%s: %s" % (type(e).__name__, str(e)[:160]), "form %d" % want)
+        return
+    finally:
+        os.path.exists(p) and os.remove(p)
+    got = sp.coo_matrix(ms[0])
+    back = {(int(r), int(c)): complex(v) for r, c, v in zip(got.row, got.col, got.data)}
+    if list(forms) != [want] or list(fs) != [want]:
+        ctx.fail(HUGE_FORM, "automatic form of a %s %d x %d scipy.sparse input (%s)" % (
+            "value-symmetric" if sym else "non-symmetric", n, n, "entries: " + ", ".join("(%d,%d)" % (t[0], t[1]) for t in trip)),
+            inp, "form %s (dir), %s (load)" % (list(forms), list(fs)), "form %d" % want)
+    elif back != {k: complex(v) for k, v in ent.items()} or got.shape != (n, n):
+        ctx.fail(HUGE_FORM + "-values", "sparse read of a huge sparse matrix differs", inp, sorted(back.items())[:4], sorted(ent.items())[:4])
+
+
 def _valid_names(rng, case):
     case["names"] = [_gen_name(rng, valid_only=True) for _ in case["names"]]
-    if len(case["names"]) > 1 and rng.random() < 0.3:
-        case["names"][1] = case["names"][0]
+    for i in range(1, len(case["names"])):  # repeated names anywhere in the file
+        if rng.random() < 0.3:
+            case["names"][i] = case["names"][rng.randrange(i)]
     return case
 
 
@@ -2212,6 +2298,9 @@ def search(ctx, hints):
         _oracle_f49_quick(ctx, op4)
         if ctx.thorough:
             _oracle_f49(ctx, op4, sc)
+        # huge sparse inputs: index arithmetic beyond 2**32 positions
+        for hc in _huge_sparse_cases(rng, ctx.pick(8, 60)):
+            _oracle_huge_sparse(ctx, op4, sc, hc)
         # ASCII variant files (reader only)
         for _ in range(ctx.pick(300, 2500)):
             _oracle_variant(ctx, op4, sc, _gen_vcase(rng))
@@ -2236,6 +2325,16 @@ def replay(ctx, data):
     if not f:
         return None
     j = f["input"]
+    if str(f.get("family", "")).startswith(HUGE_FORM):
+        sc = _Scratch()
+        try:
+            before = len(ctx.failures)
+            c = dict(j["case"])
+            c["trip"] = [(t[0], t[1], complex(t[2][0], t[2][1]) if c["cplx"] else t[2][0]) for t in c["trip"]]
+            _oracle_huge_sparse(ctx, op4, sc, c)
+            return dict(ctx.failures[-1]) if len(ctx.failures) > before else None
+        finally:
+            sc.close()
     if f.get("family") == FIXED_F49:
         sc = _Scratch()
         try:
